@@ -630,6 +630,43 @@ def check_tree_array(case, dendropy, R, src, schema, opts, ref):
         elif Fraction(weights[i]) != Fraction(w):
             case.fail("route", "TreeArray.read", "weight of tree %d recorded as %s, the tree has %s" % (i, weights[i], tree.weight))
             return
+        else:
+            case.ctx.count("treearray_weights_compared:" + ("none" if tree.weight is None else "zero" if w == 0 else "nonzero"))
+    check_array_weights(case, dendropy, src, schema, opts, tl)
+
+
+def check_array_weights(case, dendropy, src, schema, opts, tl):
+    """the weight clause on the remaining array routes: read_from_files records each tree's own weight (an explicit zero is a
+    weight; a tree without one counts 1), an array told not to use weights records 1 for every tree, and the sum of weights an
+    array works with is the sum over the trees as every other route delivers them"""
+    want = [1.0 if t.weight is None else float(t.weight) for t in tl]
+    for name, make, fill in (
+            ("TreeArray.read_from_files([file])", lambda: dendropy.TreeArray(),
+             lambda ta: ta.read_from_files([io.StringIO(src.text)], schema, **opts)),
+            ("TreeArray(use_tree_weights=False).read", lambda: dendropy.TreeArray(use_tree_weights=False),
+             lambda ta: ta.read(data=src.text, schema=schema, **opts))):
+        def run():
+            ta = make()
+            fill(ta)
+            return ta
+        ta = case.attempt(name, run)
+        if ta is None:
+            continue
+        weights = getattr(ta, "_tree_weights", None)
+        if weights is None:
+            case.ctx.count("treearray_weights_unavailable")
+            continue
+        expect = want if "use_tree_weights=False" not in name else [1.0] * len(want)
+        got = [Fraction(x) for x in weights]
+        if got != [Fraction(x) for x in expect]:
+            case.fail("route", name, "records the weights %s, the trees read by TreeList.get call for %s" % (
+                [str(x) for x in got], [str(Fraction(x)) for x in expect]))
+            continue
+        sd = getattr(ta, "split_distribution", None)
+        total = getattr(sd, "sum_of_tree_weights", None)
+        if total is not None and "use_tree_weights=False" not in name and Fraction(total) != sum(Fraction(x) for x in expect):
+            case.fail("route", name, "works with a sum of tree weights of %s, the trees read by TreeList.get add up to %s" % (
+                total, sum(Fraction(x) for x in expect)))
 
 
 def check_refused_by_list_only(ctx, dendropy, doc, kind="route-error"):
